@@ -4,4 +4,4 @@ HARNESSES += h_hist-sdbm h_hist-soct h_hist-ric h_hist-term_int h_hist-bool_int 
 HARNESSES += h_fixpo_exact
 HARNESSES += h_histg-interval h_histg-sdbm h_histg-bool_int
 HARNESSES += h_exact-itv h_exact-sdbm h_exact-dbm h_exact-soct h_exact-lift
-HARNESSES += h_fwd-aa_int h_fwd-aa_sdbm h_fwd-aa_bool_int h_fwd-as_disint h_fwd-as_sdbm h_fwd-as_bool_int
+HARNESSES += h_fwd-aa_int h_fwd-aa_sdbm h_fwd-aa_bool_int h_fwd-as_disint h_fwd-as_sdbm h_fwd-as_bool_int h_fwd-wint
